@@ -131,6 +131,7 @@ class Sample(object):
         self.mass = mass               # cell F19
         self.name = name if name else str(self.formula) # cell F20
         self.activity = {}
+        self._removal_activity = {}
 
         # The following are set in calculation_activation
         self.environment = None  # type: "ActivationEnvironment"
@@ -154,21 +155,26 @@ class Sample(object):
         :func:`IAEA1987_isotopic_abundance`.
         """
         self.activity = {}
+        self._removal_activity = {}
         self.environment = environment
         self.exposure = exposure
         self.rest_times = rest_times
+        # The activity at removal from the beam (rest time 0) is computed as an
+        # extra, final entry; decay_time starts from it so that its answer does
+        # not depend on the requested rest times.
+        times = list(rest_times) + [0]
         for el, frac in self.formula.mass_fraction.items():
             if core.ision(el):
                 # activation does not depend on the charge state
                 el = el.element
             if core.isisotope(el):
-                A = activity(el, self.mass*frac, environment, exposure, rest_times)
+                A = activity(el, self.mass*frac, environment, exposure, times)
                 self._accumulate(A)
             else:
                 for iso in el.isotopes:
                     iso_mass = self.mass*frac*abundance(el[iso])*0.01
                     if iso_mass:
-                        A = activity(el[iso], iso_mass, environment, exposure, rest_times)
+                        A = activity(el[iso], iso_mass, environment, exposure, times)
                         self._accumulate(A)
 
     def decay_time(self, target):
@@ -179,14 +185,12 @@ class Sample(object):
         if not self.rest_times or not self.activity:
             return 0
 
-        # Find the small rest time (probably 0 hr)
-        min_rest, To = min(enumerate(self.rest_times), key=lambda x: x[1])
-        # Find the activity at that time, and the decay rate
-        data = [(Ia[min_rest], LN2/a.Thalf_hrs) for a, Ia in self.activity.items()]
+        # Find the activity at removal from the beam, and the decay rate
+        data = [(Ia, LN2/a.Thalf_hrs) for a, Ia in self._removal_activity.items()]
         # Build functions for total activity at time T - target and its derivative
         # This will be zero when activity is at target
-        f = lambda t: sum(Ia*exp(-La*(t-To)) for Ia, La in data) - target
-        df = lambda t: -sum(La*Ia*exp(-La*(t-To)) for Ia, La in data)
+        f = lambda t: sum(Ia*exp(-La*t) for Ia, La in data) - target
+        df = lambda t: -sum(La*Ia*exp(-La*t) for Ia, La in data)
         # Return target time, or 0 if the activity is already at or below target
         if f(0) <= 0:
             return 0
@@ -196,7 +200,7 @@ class Sample(object):
         # derivative. Choosing a time that satisfies the longest half-life seems
         # to work well enough.
         # Products with no activity do not constrain the decay time.
-        initial = max(-log(target/Ia)/La + To for Ia, La in data if Ia > 0)
+        initial = max(-log(target/Ia)/La for Ia, La in data if Ia > 0)
         t, ft = find_root(initial, f, df)
         percent_error = 100*abs(ft)/target
         if percent_error > 0.1:
@@ -209,8 +213,10 @@ class Sample(object):
 
     def _accumulate(self, activity):
         for el, activity_el in activity.items():
+            # the final entry of activity_el is the activity at removal
             el_total = self.activity.get(el, [0]*len(self.rest_times))
             self.activity[el] = [T+v for T, v in zip(el_total, activity_el)]
+            self._removal_activity[el] = self._removal_activity.get(el, 0) + activity_el[-1]
 
     def show_table(self, cutoff=0.0001, format="%.4g"):
         """
